@@ -19,6 +19,20 @@ ABS_EXC = ClassInfo("SomeException", bases=[BUILTIN_CLASSES["Exception"]], built
 ABS_GEN_EXIT = ClassInfo("SomeGeneratorExitSubclass", bases=[BUILTIN_CLASSES["GeneratorExit"]], builtin=True)
 
 
+class LoopHead:
+    """marker yielded at the head of a `for` loop over a harness collection of arbitrary length (the iterator carries it
+    as `pyvc_loop_head`); both sides of a bisimulation must reach the same marker object"""
+
+    def __init__(self, name):
+        self.name = name
+
+    def __repr__(self):
+        return f"<loop head {self.name}>"
+
+    def canon(self, cn):
+        return ("loop-head", self.name)
+
+
 class Oracle:
     """outcomes of abstract sub-generators, keyed by (generator name, interaction index); shared by both sides"""
 
@@ -451,6 +465,12 @@ class Bisim:
                     w.cover(f"{self.name}: closed at an established cut point")
                     return
                 seen.add(key)
+            if isinstance(oi[1], LoopHead):
+                # joint loop head of a loop over a harness collection of arbitrary length (interp.ex_For): a cut point
+                # (loop invariant), not a real yield - the driver cannot intervene here
+                tok = ("send", None)
+                self.script.append("(loop head)")
+                continue
             kind = w.choose(self.driver, "driver")
             if kind == "send":
                 if self.send_factory is not None:
